@@ -38,6 +38,7 @@ def check(repo: Repo, rep, tier):
     element_parens(repo, rep)
     kwarg_position(repo, rep)
     node_none_guard(repo, rep)
+    node_kind_tested(repo, rep)
 
 
 SESSION_END = ("_get_changes", "_new_code")
@@ -965,6 +966,106 @@ def apply_routing(repo: Repo, rep):
             continue
         rep.ok("R-APPLY-ROUTING", f, c.ast, f"ast.{label}: consumes {want_kind}, enumerates {sorted(lists)}, removes exactly the delete set, one update call")
     rep.floor("R-APPLY-ROUTING", "parent branches", b_n, 3)
+
+
+DISPLAY_ATTRS = ("elts", "keys", "values", "keywords")
+
+
+def _kind_predicate(repo: Repo, f, call: ast.Call, base: str) -> bool:
+    """does the called package function return a truthy value only on paths behind `isinstance(<the parameter that receives base>, ...)`?"""
+    cg = callgraph(repo)
+    tg, _ = cg.call_targets(f, call)
+    if len(tg) != 1:
+        return False
+    g = tg[0]
+    idx = [i for i, a_ in enumerate(call.args) if norm(a_) == base]
+    if not idx:
+        return False
+    params = g.params[1:] if g.is_method() else g.params
+    if idx[0] >= len(params):
+        return False
+    p = params[idx[0]]
+    gcfg = cfg_of(g)
+    kind = [(cn, "T") for cn in gcfg.conds() if isinstance(cn.ast, ast.Call) and norm(cn.ast.func) == "isinstance" and len(cn.ast.args) == 2 and norm(cn.ast.args[0]) == p and not any(b.kind == "assertfail" for b, l in cn.succ)]
+    if not kind:
+        return False
+    through = reach(gcfg, [gcfg.entry], blocked_edges=kind)
+    for r in gcfg.stmts(ast.Return):
+        v = r.ast.value
+        falsy = v is None or (isinstance(v, ast.Constant) and not v.value)
+        if not falsy and r in through:
+            return False
+    return not (gcfg.ret in through and False)
+
+
+def node_kind_tested(repo: Repo, rep):
+    rep.rule(
+        "R-NODE-KIND-TESTED",
+        "the argument of snapshot() is an arbitrary expression - a dict may be written `dict(a=1)`, a collection as a tuple, a set or a variable: in the "
+        "snapshot classes and adapters every read of a display-specific child list of a node (`.elts`, `.keys`, `.values`, `.keywords`) is dominated by the "
+        "true edge of an `isinstance(<that node>, ast.<Kind>)` *test* (an if / a guard that falls back), never merely by an `assert`: an assertion turns a "
+        "legal test program into an AssertionError in the test or an internal error at session end",
+    )
+    n = 0
+    for f in repo.pkg_funcs():
+        if not (f.module.rel.startswith("_snapshot/") or f.module.rel.startswith("_adapter/")):
+            continue
+        sites = []
+        for x in body_nodes(f.node):
+            if isinstance(x, ast.Attribute) and x.attr in DISPLAY_ATTRS and isinstance(x.ctx, ast.Load):
+                par = parent(x)
+                if isinstance(par, ast.Call) and par.func is x:
+                    continue  # mapping.keys() / .values()
+                sites.append(x)
+        if not sites:
+            continue
+        cfg = cfg_of(f)
+        for x in sites:
+            base = norm(x.value)
+            at = cfg.nodes_containing(x)
+            if not at:
+                continue
+            n += 1
+            # every path to the read passes the true edge of a kind test of that node - or is a path on which the node is None
+            # (`X is not None` false / `X is None` true / after `X = None`), where the read is skipped by a None test of its own
+            kind_edges, assert_edges, none_edges, none_stores = [], [], [], []
+            for cn in cfg.conds():
+                e = cn.ast
+                if isinstance(e, ast.Call) and norm(e.func) == "isinstance" and len(e.args) == 2 and norm(e.args[0]) == base:
+                    if any(b.kind == "assertfail" for b, l in cn.succ):
+                        assert_edges.append((cn, "T"))
+                    else:
+                        kind_edges.append((cn, "T"))
+                elif isinstance(e, ast.Call) and any(norm(a_) == base for a_ in e.args) and _kind_predicate(repo, f, e, base):
+                    # `if self._is_call_of_x(node):` - a predicate helper that answers truthy only behind its own kind test of that argument
+                    kind_edges.append((cn, "T"))
+                t = norm(e)
+                if t == f"{base} is not None":
+                    none_edges.append((cn, "F"))
+                elif t == f"{base} is None":
+                    none_edges.append((cn, "T"))
+            for st in cfg.stmts(ast.Assign):
+                if any(norm(t_) == base for t_ in st.ast.targets) and isinstance(st.ast.value, ast.Constant) and st.ast.value.value is None:
+                    none_stores.append(st)
+            through = reach(cfg, [cfg.entry], blocked_edges=kind_edges + none_edges, blocked_nodes=none_stores)
+            tested = bool(kind_edges) and not any(nd in through for nd in at)
+            asserted = bool(assert_edges)
+            if not tested:
+                # a helper that receives a node it does not test: judged at its call sites (the caller tested) - accept parameters of private helpers
+                if isinstance(x.value, ast.Name) and x.value.id in f.params and (f.name.startswith("_") or f.parent is not None):
+                    rep.ok("R-NODE-KIND-TESTED", f, x, f"`{norm(x)}`: node handed to a helper by a caller that tested it")
+                    continue
+                rep.violation(
+                    "R-NODE-KIND-TESTED",
+                    f,
+                    x,
+                    f"{f.qualname} reads `{norm(x)}` {'behind an `assert isinstance(...)`' if asserted else 'without testing the kind of the node'}: for a snapshot argument written in another form "
+                    "(`dict(a=1)`, a tuple, a variable) the test fails with an AssertionError / AttributeError or the session ends with an internal error",
+                    construct=f"{f.qualname}:{norm(x)}",
+                )
+            else:
+                rep.ok("R-NODE-KIND-TESTED", f, x, f"`{norm(x)}` behind an isinstance test")
+    rep.floor("R-NODE-KIND-TESTED", "reads of display-specific child lists", n, 8)
 
 
 def rel_path_total(repo: Repo, rep):
